@@ -124,6 +124,117 @@ func configs() []*config {
 			depth:    map[string]int{"quick": 5, "thorough": 7}, shards: 4,
 		},
 		{
+			// In-flight deduplication against an EXECUTING task: the action
+			// T is executing on W:1 for invocation [I3,X]; requests for the
+			// same action from [I1,X] join that task, which makes W:1 an
+			// executing worker of I1 and of [I1,X] without anything being
+			// dequeued; then workers ask for work.
+			name: "c04-dedup-exec", props: []string{"C04"},
+			predeclared: onePQ(),
+			workers:     []workerDecl{w(1, "", "P1", 0), w(2, "", "P1", 0)},
+			execs: []execDecl{
+				{name: "T.I3X", platform: "P1", corr: "I3", tool: "X", prio: 0, dur: 1, share: "T", prefixOnly: true},
+				{name: "T.I1X", platform: "P1", corr: "I1", tool: "X", prio: 0, dur: 1, share: "T"},
+				{name: "I1X", platform: "P1", corr: "I1", tool: "X", prio: 0, dur: 1},
+				{name: "I1Y", platform: "P1", corr: "I1", tool: "Y", prio: 0, dur: 1},
+				{name: "I2X", platform: "P1", corr: "I2", tool: "X", prio: 0, dur: 1},
+			},
+			prefix:   []string{"W:1", "T.I3X"},
+			maxTicks: 1,
+			depth:    map[string]int{"quick": 5, "thorough": 7}, shards: 4,
+		},
+		{
+			// Executing WORKERS, not operations: the task T executing on W:1
+			// is part of [I1,X] and [I1,Y], so I1 has two executing
+			// operations on one worker and scores (1+1); against an I2
+			// operation of priority 150 (score 2^1.5) the difference
+			// decides. Requests from [I2,X] make W:1 an executing worker of
+			// I2 as well.
+			name: "c04-dedup-workers", props: []string{"C04"},
+			predeclared: onePQ(),
+			workers:     []workerDecl{w(1, "", "P1", 0), w(2, "", "P1", 0)},
+			execs: []execDecl{
+				{name: "T.I1X", platform: "P1", corr: "I1", tool: "X", prio: 0, dur: 1, share: "T", prefixOnly: true},
+				{name: "T.I1Y", platform: "P1", corr: "I1", tool: "Y", prio: 0, dur: 1, share: "T", prefixOnly: true},
+				{name: "T.I2X", platform: "P1", corr: "I2", tool: "X", prio: 0, dur: 1, share: "T"},
+				{name: "I1X", platform: "P1", corr: "I1", tool: "X", prio: 0, dur: 1},
+				{name: "I2X.p150", platform: "P1", corr: "I2", tool: "X", prio: 150, dur: 1},
+			},
+			prefix:   []string{"W:1", "T.I1X", "T.I1Y"},
+			maxTicks: 1,
+			depth:    map[string]int{"quick": 5, "thorough": 7}, shards: 2,
+		},
+		{
+			// In-flight deduplication from scratch: requests for one action
+			// from [I1,X], [I1,Y] and [I2,X] (and repeated from the same
+			// invocation) while its task is queued or executing; one task
+			// is then queued in several invocations, leaves all of them
+			// when it is handed out, counts as an executing worker of each,
+			// and its worker afterwards last served their common ancestor.
+			name: "c04-dedup", props: []string{"C04"},
+			predeclared: onePQ(),
+			workers:     []workerDecl{w(1, "", "P1", 0), w(2, "", "P1", 0)},
+			execs: []execDecl{
+				{name: "T.I1X", platform: "P1", corr: "I1", tool: "X", prio: 0, dur: 1, share: "T"},
+				{name: "T.I1Y", platform: "P1", corr: "I1", tool: "Y", prio: 0, dur: 1, share: "T"},
+				{name: "T.I2X", platform: "P1", corr: "I2", tool: "X", prio: 0, dur: 1, share: "T"},
+				{name: "I2X", platform: "P1", corr: "I2", tool: "X", prio: 0, dur: 1},
+			},
+			maxTicks: 1,
+			depth:    map[string]int{"quick": 5, "thorough": 7}, shards: 4,
+		},
+		{
+			// A window that expired although the worker never stopped
+			// serving the invocation (level 0, limit 2 ticks): W:1 has held
+			// an I1 task since t=0, at t=2 I2 appears. I1 is then still the
+			// fair pick once (least recently served); that must not restart
+			// the window, so the next tie goes to I2.
+			name: "c04-sticky-expired0", props: []string{"C04"},
+			predeclared: onePQ(2),
+			workers:     []workerDecl{w(1, "", "P1", 0)},
+			execs: []execDecl{
+				{name: "I1X", platform: "P1", corr: "I1", tool: "X", prio: 0, dur: 1},
+				{name: "I1Y", platform: "P1", corr: "I1", tool: "Y", prio: 0, dur: 1},
+				{name: "I2X", platform: "P1", corr: "I2", tool: "X", prio: 0, dur: 1},
+			},
+			prefix:   []string{"W:1", "I1X", "tick", "tick", "I2X", "I1X"},
+			maxTicks: 4,
+			depth:    map[string]int{"quick": 5, "thorough": 7}, shards: 2,
+		},
+		{
+			// The same at level 1 (limits 9 ticks / 1 tick): W:1 has held an
+			// [I1,X] task since t=0, at t=1 [I1,Y] appears.
+			name: "c04-sticky-expired1", props: []string{"C04"},
+			predeclared: onePQ(9, 1),
+			workers:     []workerDecl{w(1, "", "P1", 0)},
+			execs: []execDecl{
+				{name: "I1X", platform: "P1", corr: "I1", tool: "X", prio: 0, dur: 1},
+				{name: "I1Y", platform: "P1", corr: "I1", tool: "Y", prio: 0, dur: 1},
+				{name: "I2X", platform: "P1", corr: "I2", tool: "X", prio: 0, dur: 1},
+			},
+			prefix:   []string{"W:1", "I1X", "tick", "I1Y", "I1X"},
+			maxTicks: 3,
+			depth:    map[string]int{"quick": 5, "thorough": 7}, shards: 2,
+		},
+		{
+			// Two workers, one level (limit 2 ticks): W:2 executes an I2
+			// task, so I1 strictly has the lowest score while W:1 serves it
+			// beyond its window (t=0..2). A drain lets W:2 finish without
+			// taking new work, which turns I1 against I2 into a tie that
+			// must go to the least recently served I2.
+			name: "c04-sticky-drain", props: []string{"C04"},
+			predeclared: onePQ(2),
+			workers:     []workerDecl{w(1, "", "P1", 0), w(2, "", "P1", 0)},
+			execs: []execDecl{
+				{name: "I1X", platform: "P1", corr: "I1", tool: "X", prio: 0, dur: 1},
+				{name: "I2X", platform: "P1", corr: "I2", tool: "X", prio: 0, dur: 1},
+			},
+			drains:   []drainDecl{{name: "d:w2", platform: "P1", pattern: map[string]string{"host": "w2"}}},
+			prefix:   []string{"W:2", "I2X", "I1X", "I1X", "I1X", "I2X", "W:1", "tick", "tick"},
+			maxTicks: 3,
+			depth:    map[string]int{"quick": 5, "thorough": 7}, shards: 4,
+		},
+		{
 			// Routing: nested instance name prefixes, two platforms,
 			// predeclared and worker-created queues, workers that stop
 			// synchronizing (queue removal and re-creation), start-up grace
